@@ -5,6 +5,6 @@ for d in seeded/*/; do
   s=$(basename $d)
   p=$(python3 -c "import json; print(json.load(open('$d/meta.json'))['property'])")
   extra=""
-  case $s in C12-b) extra="C15";; C06-a|C06-b) extra="C18";; esac
+  case $s in C12-b) extra="C15";; C04-c) extra="C12";; C06-a|C06-b) extra="C18";; esac
   tools/run_seed.sh $s $p $extra 2>&1 | grep -E "^seed=|does not apply|uncommitted"
 done
